@@ -68,8 +68,9 @@ func (k Key) Matches(key rune, modifiers ...ModifierMask) bool {
 		return true
 	}
 
-	// Rule 2
-	if k.Text == string(key) && mods == kMods {
+	// Rule 2. Special keys lie outside of unicode: string(key) would be
+	// "\uFFFD" for all of them and match a literal U+FFFD
+	if key <= unicode.MaxRune && k.Text == string(key) && mods == kMods {
 		return true
 	}
 
